@@ -2013,7 +2013,9 @@ class Surface(SplineGeometry):
             uv = self._tsl_component.vertices[idx].uv
             if self._kv_normalize and not utilities.check_params(uv):
                 continue
-            self._tsl_component.vertices[idx].data = self.evaluate_single(uv)
+            # Tessellation works on the unit square; map to the parametric domain of the surface
+            param = [d[0] + ((d[1] - d[0]) * p) for d, p in zip(self.domain, uv)]
+            self._tsl_component.vertices[idx].data = self.evaluate_single(param)
 
     def reset(self, **kwargs):
         """ Resets control points and/or evaluated points.
